@@ -2,7 +2,7 @@
 use super::drive::{drive, lm_strategy, LmCfg};
 use super::oracles::{effective_eps, Lin, RankClass, FORWARD_GATE};
 use crate::adapt::Prob;
-use crate::engine::{Check, Fail, Outcome, Property, Tier};
+use crate::engine::{pick, Check, Fail, Outcome, Property, Tier};
 use crate::gen::{case_strategy, CaseCfg, ProblemCase};
 use crate::oracle::linalg::norm2;
 use crate::sc::same_bits;
@@ -125,11 +125,26 @@ fn compare_column<T: Sc>(p: &dyn Prob<T>, q: &dyn Prob<T>, s: usize, eps: f64, t
     let Ok(lin) = Lin::new(q, eps) else { return Ok(()) };
     let kappa = if lin.class == RankClass::ClearFull { lin.kappa_kept() } else { f64::INFINITY };
     let tol = lin.kf() * lin.ut * kappa;
+    let f = |v: &[T]| v.iter().map(|x| x.f()).collect::<Vec<f64>>();
     if !(tol <= FORWARD_GATE) {
-        skipped.push("c07.compare:not-bitwise-and-ill-conditioned".into());
+        // Too ill-conditioned for a forward comparison — but not for the rank decision: a solution
+        // that keeps a tiny singular value is larger by the ratio of the condition numbers than one
+        // that truncates it, and their residuals differ by the data's component along the dropped
+        // direction. Both problems decompose the same matrix with the same threshold, so they must
+        // decide alike (a threshold that depends on the number of right-hand sides does not).
+        let (a, b) = (f(&pcs), f(&qcs));
+        let (na, nb) = (norm2(&a), norm2(&b));
+        let dr = dev(&f(&prs), &f(&qr), lin.b.fro());
+        let floor = lin.tiny * 1e6;
+        if na.is_finite() && nb.is_finite() && (na > 1e3 * nb.max(floor) || nb > 1e3 * na.max(floor)) && dr > 1e-6 {
+            return Err(Fail::new(
+                "c07.rank_decision",
+                format!("{tag}: {what} {s}: the multi-rhs problem and the single-column problem decide differently which singular values count as zero: |c| = {na:e} vs {nb:e}, residual blocks differ by {dr:e} (relative); sigma = {:?}, threshold {eps:e}", lin.svd.s),
+            ));
+        }
+        skipped.push("c07.compare:not-bitwise-and-ill-conditioned(rank decision checked)".into());
         return Ok(());
     }
-    let f = |v: &[T]| v.iter().map(|x| x.f()).collect::<Vec<f64>>();
     let (a, b) = (f(&pcs), f(&qcs));
     let dc = dev(&a, &b, norm2(&a).max(norm2(&b)));
     let dr = dev(&f(&prs), &f(&qr), lin.b.fro());
@@ -230,7 +245,7 @@ impl Property for C07 {
     fn cases(&self, tier: Tier) -> usize {
         match tier {
             Tier::Quick => 20_000,
-            Tier::Thorough => 300_000,
+            Tier::Thorough => 1_200_000,
         }
     }
     fn strategy(&self, _tier: Tier) -> BoxedStrategy<C07Case> {
@@ -261,6 +276,34 @@ impl Property for C07 {
                             base.y[s - 1] = c;
                         }
                         _ => {}
+                    }
+                }
+                // 1/8 of the small problems: more right-hand sides than samples (S in N+1..N+6, columns
+                // cycled and shifted; the check costs S single-column problems per visited alpha)
+                if (dupsel >> 3) & 7 == 7 && base.n() <= 20 {
+                    let n = base.n();
+                    let s_new = n + 1 + pick(dupsel.rotate_left(9), 6);
+                    let s_old = base.y.len();
+                    base.y = (0..s_new).map(|c| base.y[c % s_old].iter().map(|v| v + 0.017 * (c / s_old) as f64).collect()).collect();
+                }
+                // 1/32 of the small problems: very many right-hand sides (40, 120 or 300) on few samples
+                // and, where two parameters play the same role, a near collision whose smallest
+                // singular value lies within four decades above the rounding level sigma_max·u_T — the
+                // zone of numerical-rank tolerances, which may (wrongly) depend on the shape
+                if (dupsel >> 6) & 31 == 31 && base.n() <= 16 {
+                    let s_new = [40usize, 120, 300][pick(dupsel.rotate_left(3), 3)];
+                    let s_old = base.y.len();
+                    base.y = (0..s_new).map(|c| base.y[c % s_old].iter().map(|v| v + 0.017 * (c / s_old) as f64).collect()).collect();
+                    let roles = base.spec.roles();
+                    let ut = if base.f32 { f32::EPSILON as f64 } else { f64::EPSILON };
+                    'outer: for i in 0..roles.len() {
+                        for j in (i + 1)..roles.len() {
+                            if roles[i] == roles[j] {
+                                let e = ut * 10f64.powf(4.0 * (perm_keys[0] as f64 / 65536.0));
+                                base.alpha[j] = base.alpha[i] * (1.0 + e);
+                                break 'outer;
+                            }
+                        }
                     }
                 }
                 let updates = crate::gen::alpha_list(&base.spec, &raws);
